@@ -156,6 +156,39 @@ pub fn main() -> Int {
 }
 "#;
 
+/// a module that declares names of its own with the spellings of the library's and still means the library's when it
+/// writes `lib.name`
+const SHADOW: &str = r#"import lib
+
+pub type Shape {
+  Circle(mine: Int)
+  Other
+}
+
+pub type Alias =
+  Int
+
+pub const konst = 7
+
+pub fn func(x: Int) -> Int {
+  x
+}
+
+pub fn main(own: Shape) -> Int {
+  let s: lib.Shape = lib.Circle(radius: 1, tag: 2)
+  let a: lib.Alias = s
+  let _ = #(own, a, Circle(mine: 1), func(konst))
+  lib.func(lib.konst)
+}
+
+pub fn pm(s: lib.Shape) -> Int {
+  case s {
+    lib.Circle(radius: r, tag: _) -> r
+    _ -> 0
+  }
+}
+"#;
+
 struct Occ {
     id: &'static str,
     kind: &'static str,
@@ -183,6 +216,7 @@ const OCCS: &[Occ] = &[
     o("function.alias_import", "function", "alias", "use", "ali", "as gfunc,", 3),
     o("function.alias_use", "function", "alias", "use", "ali", "gfunc(gkonst)", 0),
     o("function.modalias", "function", "modalias", "use", "modali", "lb.func(", 3),
+    o("function.qualified_shadowed", "function", "qualified", "use", "shadow", "lib.func(", 4),
     o("constant.def", "constant", "direct", "def", "lib", "const konst", 6),
     o("constant.use", "constant", "direct", "use", "lib", "param + konst", 8),
     o("constant.qualified", "constant", "qualified", "use", "main", "(lib.konst)", 5),
@@ -192,6 +226,7 @@ const OCCS: &[Occ] = &[
     o("constant.alias_import", "constant", "alias", "use", "ali", "as gkonst,", 3),
     o("constant.alias_use", "constant", "alias", "use", "ali", "gfunc(gkonst)", 6),
     o("constant.modalias", "constant", "modalias", "use", "modali", "(lb.konst)", 4),
+    o("constant.qualified_shadowed", "constant", "qualified", "use", "shadow", "(lib.konst)", 5),
     o("field.def", "field", "direct", "def", "lib", "Circle(radius: Int", 7),
     o("field.arg_label", "field", "direct", "use", "lib", "Circle(radius: 1", 7),
     o("field.pattern_label", "field", "direct", "use", "lib", "Circle(radius: r", 7),
@@ -230,9 +265,11 @@ const OCCS: &[Occ] = &[
     o("type.alias_import", "type", "alias", "use", "ali", "as GShape,", 3),
     o("type.alias_use", "type", "alias", "use", "ali", "s: GShape =", 3),
     o("type.modalias", "type", "modalias", "use", "modali", "lb.Shape", 3),
+    o("type.qualified_shadowed", "type", "qualified", "use", "shadow", "s: lib.Shape =", 7),
     o("type_alias.def", "type_alias", "direct", "def", "lib", "type Alias =", 5),
     o("type_alias.use", "type_alias", "direct", "use", "lib", "-> Alias {", 3),
     o("type_alias.qualified", "type_alias", "qualified", "use", "main", "lib.Alias", 4),
+    o("type_alias.qualified_shadowed", "type_alias", "qualified", "use", "shadow", "lib.Alias", 4),
     o("type_alias.unq_import", "type_alias", "unqualified", "use", "unq", "type Alias,", 5),
     o("type_alias.unq_use", "type_alias", "unqualified", "use", "unq", "a: Alias", 3),
     o("type_alias.alias_orig", "type_alias", "unqualified", "use", "ali", "type Alias as", 5),
@@ -243,6 +280,8 @@ const OCCS: &[Occ] = &[
     o("constructor.pattern", "constructor", "direct", "use", "lib", "Circle(radius: r", 0),
     o("constructor.qualified", "constructor", "qualified", "use", "main", "= lib.Circle(", 6),
     o("constructor.qualified_pattern", "constructor", "qualified", "use", "main", "lib.Square(", 4),
+    o("constructor.qualified_shadowed", "constructor", "qualified", "use", "shadow", "= lib.Circle(", 6),
+    o("constructor.qualified_pattern_shadowed", "constructor", "qualified", "use", "shadow", "    lib.Circle(radius: r", 8),
     o("constructor.unq_import", "constructor", "unqualified", "use", "unq", " Circle,", 1),
     o("constructor.unq_use", "constructor", "unqualified", "use", "unq", "= Circle(", 2),
     o("constructor.unq_pattern", "constructor", "unqualified", "use", "unq", "Square(side) ->", 0),
@@ -304,6 +343,7 @@ fn build(locality: &str) -> Ws {
             ("src/unq.gleam".into(), Some("unq"), UNQ.into()),
             ("src/ali.gleam".into(), Some("ali"), ALI.into()),
             ("src/modali.gleam".into(), Some("modali"), MODALI.into()),
+            ("src/shadow.gleam".into(), Some("shadow"), SHADOW.into()),
         ]),
         ("shared", "/shared", true, vec![
             ("gleam.toml".into(), None, "name = \"shared\"\nversion = \"0.1.0\"\n".into()),
@@ -346,6 +386,7 @@ fn build(locality: &str) -> Ws {
                     "unq" => UNQ,
                     "ali" => ALI,
                     "modali" => MODALI,
+                    "shadow" => SHADOW,
                     _ => unreachable!(),
                 };
                 modules.insert(*m, (id, st));
